@@ -55,6 +55,7 @@ def run(ctx):
     ctx.guard(R, "lookup_ll_code", lambda: n.__setitem__(0, n[0] + c14._code_table_decoder(ctx, R, SSD + "::lookup_ll_code", SPEC["ll_codes"], "LL")))
     ctx.guard(R, "lookup_ml_code", lambda: n.__setitem__(0, n[0] + c14._code_table_decoder(ctx, R, SSD + "::lookup_ml_code", SPEC["ml_codes"], "ML")))
     ctx.floor(R, n[0], 89, "LL/ML decoder code table entries")
+    ctx.guard("C01.order.bit-reads", "triple", lambda: c14._bit_reads(ctx, "C01.order.bit-reads"))
     ctx.guard("C01.table.offset-codes", "offset", lambda: c14._offset_codes(ctx, "C01.table.offset-codes"))
     ctx.guard("C01.table.repeat-offsets", "do_offset_history", lambda: c14._repeat_offsets(ctx, "C01.table.repeat-offsets"))
     c14_headers.run(ctx, SPEC)
